@@ -66,3 +66,10 @@ Definition exact_closest (own : N) (sender : option N) (t : table) (key : N) (c 
   (forall q y, eligible own sender t q -> ~ In q s -> In y s -> dist key (pid y) < dist key (pid q)) /\
   (exists cands, NoDup cands /\ (forall q, In q cands <-> eligible own sender t q) /\
                  length s = Nat.min c (length cands)).
+
+Definition sop_valid (o : sop) : Prop :=
+  match o with
+  | SAdd p _ => pid p < M
+  | SRemove p => pid p < M
+  | _ => True
+  end.
